@@ -14,11 +14,11 @@ pub const PATHS: &[&str] = &[
 
 const LITS: &[&str] = &["1", "\"s\"", "true", "null", "[1, 2]", "{\"b\": 1}", "{\"b\": {\"c\": 2}}", "[]", "{}", "2.5"];
 
-pub const N_PRODUCTIONS: usize = 33;
+pub const N_PRODUCTIONS: usize = 36;
 pub const PRODUCTION_NAMES: [&str; N_PRODUCTIONS] = [
     "assign_path", "assign_var", "merge_assign", "infallible_path_var", "infallible_var_path", "del", "del_compact",
     "if_exists", "if_eq", "for_each_object", "for_each_array", "map_values", "filter", "unnest", "replace_root",
-    "merge_root", "abort", "return", "exists_stmt", "assign_index_deep", "chained_assign", "infallible_path_path", "root_functions", "if_then_abort", "if_then_return", "if_chain", "abort_with_message", "variable_path_then_root", "nested_closure", "closure_return", "root_ops", "typed_path_in_typed_position", "typed_path_closure_tail",
+    "merge_root", "abort", "return", "exists_stmt", "assign_index_deep", "chained_assign", "infallible_path_path", "root_functions", "if_then_abort", "if_then_return", "if_chain", "abort_with_message", "variable_path_then_root", "nested_closure", "closure_return", "root_ops", "typed_path_in_typed_position", "typed_path_closure_tail", "if_multi_predicate", "closure_abort", "variable_path_edit",
 ];
 
 pub struct Gen<'a> {
@@ -31,7 +31,7 @@ pub struct Gen<'a> {
 
 impl<'a> Gen<'a> {
     pub fn new(rng: &'a mut Rng) -> Self {
-        let base: [u32; N_PRODUCTIONS] = [10, 5, 4, 4, 4, 6, 4, 5, 4, 4, 4, 3, 3, 4, 3, 3, 1, 1, 2, 3, 3, 4, 3, 2, 2, 3, 1, 3, 2, 2, 3, 4, 4];
+        let base: [u32; N_PRODUCTIONS] = [10, 5, 4, 4, 4, 6, 4, 5, 4, 4, 4, 3, 3, 4, 3, 3, 1, 1, 2, 3, 3, 4, 3, 2, 2, 3, 1, 3, 2, 2, 3, 4, 4, 3, 2, 3];
         let mut weights = base;
         // swarm: disable a random half of the productions (never all)
         for w in weights.iter_mut() {
@@ -70,11 +70,17 @@ impl<'a> Gen<'a> {
     }
 
     fn rvalue(&mut self) -> String {
-        let n = if self.defined.is_empty() { 21 } else { 22 };
+        let n = if self.defined.is_empty() { 26 } else { 27 };
         match self.rng.below(n) {
+            // target operations inside expression-valued control flow: if-expression, block, right operand of `??`, `&&`, `||`
+            21 => format!("{{ if exists({}) {{ {} }} else {{ del({}) }} }}", self.npath(), self.path(), self.npath()),
+            22 => format!("{{ {} = {}; {} }}", self.wpath(), self.lit(), self.path()),
+            23 => format!("(to_int({}) ?? del({}))", { let p = self.path(); self.any(p) }, self.npath()),
+            24 => format!("(exists({}) && del({}) == {})", self.npath(), self.npath(), self.lit()),
+            25 => format!("({} == {} || {{ {} = {}; false }})", self.path(), self.lit(), self.wpath(), self.lit()),
             // reads in operand / element / named-argument positions
             15 => format!("!({} == {})", self.path(), self.lit()),
-            16 => format!("-(to_int({}) ?? 1)", { let p = self.path(); self.any(p) }),
+            16 => format!("(0 - (to_int({}) ?? 1))", { let p = self.path(); self.any(p) }),
             17 => format!("(1 + (to_int({}) ?? 0))", { let p = self.path(); self.any(p) }),
             18 => format!("[{}, {}, {}]", self.lit(), self.lit(), self.path()),
             19 => format!("{{\"x\": {}, \"y\": {}}}.y", self.lit(), self.path()),
@@ -117,7 +123,7 @@ impl<'a> Gen<'a> {
         let mut w = self.weights;
         if depth >= 2 {
             // no further nesting
-            for i in [7usize, 8, 9, 10, 11, 12, 23, 24, 25, 28, 29, 31, 32] {
+            for i in [7usize, 8, 9, 10, 11, 12, 23, 24, 25, 28, 29, 31, 32, 33] {
                 w[i] = 0;
             }
         }
@@ -127,6 +133,7 @@ impl<'a> Gen<'a> {
             w[17] = 0;
             w[26] = 0;
             w[27] = 0;
+            w[35] = 0;
         }
         if w.iter().all(|x| *x == 0) {
             w[0] = 1;
@@ -307,6 +314,29 @@ impl<'a> Gen<'a> {
                     2 => format!("{v} = filter(object({}) ?? {{\"a\": 1}}) -> |_k, _v| {{ {p} = true; {p} }}", self.any(q)),
                     _ => format!("{p} = \"r\"\n{v} = replace_with(\"a1b2\", r'\\d') -> |_m| {{ {p} }}"),
                 };
+                if top && !self.defined.contains(&v) {
+                    self.defined.push(v);
+                }
+                s
+            }
+            33 => {
+                // a predicate made of several statements: a read into a scratch variable, then the test
+                let p = self.path();
+                let l = self.lit();
+                let a = self.stmt(depth + 1, false);
+                format!("if (t = {}; t == {l} || exists({})) {{\n  {}\n}}", self.any(p), self.npath(), a.replace('\n', "\n  "))
+            }
+            34 => {
+                // abort from inside a closure iteration, after a write
+                let p = self.path();
+                format!("for_each(array({}) ?? []) -> |_i, v| {{ {} = v; if v == {} {{ abort }} }}", self.any(p), self.wpath(), self.lit())
+            }
+            35 => {
+                // edit a copy held in a variable (variable paths, del on a variable), then write it back
+                let v = self.var();
+                let p = self.path();
+                let r = self.rvalue();
+                let s = format!("{v} = object({}) ?? {{}}\n{v}.k.l = {r}\ndel({v}.b)\n{} = {v}", self.any(p), self.wpath());
                 if top && !self.defined.contains(&v) {
                     self.defined.push(v);
                 }
